@@ -1,18 +1,31 @@
 #!/bin/sh
-# tools/seedspawn.sh C09 : create a scratch worktree of /repo HEAD for a seeded-defect sub-agent and write its prompt
+# tools/seedspawn.sh C09 [suffix] : create a scratch worktree of /repo HEAD for a seeded-defect sub-agent and write its prompt.
+# With a suffix (second round) the prompt also lists the titles of the seeds already collected for that property, to be avoided.
 set -e
 id=$1
+sfx=$2
+dir=/tmp/seed/$id$sfx
 mkdir -p /tmp/seed
-git -C /repo worktree add --detach /tmp/seed/$id HEAD >/dev/null 2>&1
-mkdir -p /tmp/seed/$id/out
-/venv/bin/python - "$id" <<'PY'
-import json, sys
-i = sys.argv[1]
+git -C /repo worktree add --detach $dir HEAD >/dev/null 2>&1
+mkdir -p $dir/out
+/venv/bin/python - "$id" "$sfx" <<'PY'
+import json, sys, glob, os
+i, sfx = sys.argv[1], sys.argv[2]
 for l in open('/verif/properties.jsonl'):
     p = json.loads(l)
     if p['id'] == i:
         prop = "%s - %s\n\nStatement: %s\n\nQuantifier: %s\n\nAnchored in files: %s\n" % (p['id'], p['title'], p['statement'], p['quantifier']['text'], ', '.join(p['anchors']['files']))
 t = open('/verif/tools/seed_prompt.tmpl').read()
-open('/tmp/seed/%s.prompt' % i, 'w').write(t.replace('@ID@', i).replace('@PROP@', prop))
+t = t.replace('/tmp/seed/@ID@', '/tmp/seed/' + i + sfx).replace('@ID@', i).replace('@PROP@', prop)
+if sfx:
+    known = []
+    for d in sorted(glob.glob('/verif/seeded/%s-*' % i)):
+        try:
+            m = json.load(open(os.path.join(d, 'meta.json')))
+            known.append("- %s (%s)" % (m.get('title', '?'), ', '.join(m.get('files_touched', []))))
+        except Exception:
+            pass
+    t += "\n\nSECOND ROUND NOTE: earlier rounds already produced the following ideas for this property; do NOT repeat them or close variants, look for different mechanisms (other functions, other kinds of state, other boundaries, error paths, rarely used options, interactions between modules):\n" + "\n".join(known) + "\n"
+open('/tmp/seed/%s%s.prompt' % (i, sfx), 'w').write(t)
 PY
-echo "/tmp/seed/$id.prompt"
+echo "/tmp/seed/$id$sfx.prompt"
